@@ -379,6 +379,9 @@ def verify_job(cname, shape, max_paths=20000):
         out["undecided"].append(f"EngineError: {e}")
         results = []
     out["paths"] = len(results)
+    for dec, res in results[len(vcs):]:  # (budget markers: no path was started for them)
+        if res[0] == "undecided":
+            out["undecided"].append(f"{type(res[1]).__name__}: {res[1]}")
     for (dec, res), vc in zip(results, vcs):
         if res[0] == "undecided":
             e = res[1]
